@@ -1,6 +1,7 @@
 // Driver for C10: runs histories of real connections (one client configuration with a
 // recording LRU session cache, two servers with their own caches) with induced failures,
-// server cache loss, suite reconfiguration, forged / stale session ids and evictions, and
+// server cache loss, suite reconfiguration, forged / stale session ids (forged ones of every legal
+// length 1..32) and evictions, and
 // writes `case => observed` lines for the Lean oracle (model + spec).
 //
 // case     : stack=tlcp|dtlcp ccap=<client cache capacity> scap=<server cache capacity> hist=<history>
@@ -70,6 +71,16 @@ func randomAuth(r *hx.Rand) (int, string) {
 	return r.Intn(6), hx.Pick(r, []string{"n", "c", "c", "c", "d"})
 }
 
+// forgedLen picks the length of a forged / foreign session identifier: session_id is opaque
+// SessionID<0..32>, so every length 1..32 is legal in a ClientHello. "" = the 32 bytes this server
+// issues itself (half of the draws), otherwise a suffix 1..31.
+func forgedLen(r *hx.Rand) string {
+	if r.Chance(50) {
+		return ""
+	}
+	return fmt.Sprint(1 + r.Intn(31))
+}
+
 func randomConn(r *hx.Rand, ccap int) string {
 	pre := "-"
 	if r.Chance(45) {
@@ -83,9 +94,9 @@ func randomConn(r *hx.Rand, ccap int) string {
 			case x < 40:
 				acts = append(acts, fmt.Sprintf("j%d", 1+r.Intn(ccap+1)))
 			case x < 55:
-				acts = append(acts, "fg")
+				acts = append(acts, "fg"+forgedLen(r))
 			case x < 60:
-				acts = append(acts, "fn")
+				acts = append(acts, "fn"+forgedLen(r))
 			case x < 80:
 				acts = append(acts, fmt.Sprintf("st%d", r.Intn(2)))
 			default:
@@ -174,6 +185,28 @@ func main() {
 		hd(4, 4, honest(0), honest(1), honest(0), honest(1))
 		hd(4, 4, honest(0), conn("-", 0, 1, both, both, "ok"), honest(0))
 		hd(4, 1, honest(0), honest(1), conn("-", 1, 0, both, both, "ok"), honest(0))
+		// an offered identifier the server does not hold, of EVERY legal length (opaque SessionID<0..32>:
+		// the client holds, for this address, a session issued by another implementation or node, or a
+		// truncated / made-up value): a full handshake as if nothing had been offered, the session it
+		// creates is resumed by the next connections
+		for n := 1; n <= 31; n++ {
+			hd(4, 4, conn(fmt.Sprintf("fg%d", n), 0, 0, both, both, "ok"), honest(0), honest(0))
+		}
+		for _, n := range []int{1, 2, 8, 16, 31} {
+			fg := fmt.Sprintf("fg%d", n)
+			// it replaces a genuine session; the other server; no recorded certificates (never offered)
+			hd(4, 4, honest(0), conn(fg, 0, 0, both, both, "ok"), honest(0))
+			hd(2, 1, honest(1), conn(fg, 1, 1, cbc, both, "ok"), honest(1), honest(0))
+			hd(4, 4, conn(fmt.Sprintf("fn%d", n), 0, 0, both, both, "ok"), honest(0))
+			// the connection that offers it fails at the client: it is not offered again
+			hd(4, 4, conn(fg, 0, 0, both, both, "sf"), honest(0), honest(0))
+			hd(4, 4, conn(fg, 0, 0, both, both, "cf"), honest(0))
+			// no common suite / a required client certificate is missing: fails exactly like the control
+			hd(4, 4, conn(fg, 0, 0, gcm, cbc, "ok"), honest(0))
+			// with client authentication
+			hd(4, 4, auth(conn(fg, 0, 0, both, both, "ok"), 4, "c"), auth(honest(0), 4, "c"))
+			hd(4, 4, auth(conn(fg, 0, 0, both, both, "ok"), 2, "n"), auth(honest(0), 1, "n"))
+		}
 		// client authentication: the same peer identity on BOTH sides of a resumed connection.
 		// Every policy x client with / without a certificate: full handshake, then the same session
 		// resumed twice (policies 2, 4, 5 without a certificate: no handshake ever completes)
